@@ -66,7 +66,11 @@ func die2(format string, a ...interface{}) {
 }
 
 func loadConfig() Config {
-	b, err := os.ReadFile(filepath.Join(verifDir, "checks.json"))
+	path := filepath.Join(verifDir, "checks.json")
+	if alt := os.Getenv("VERIF_CHECKS"); alt != "" {
+		path = alt // private configuration (used while developing a harness in parallel)
+	}
+	b, err := os.ReadFile(path)
 	if err != nil {
 		die2("read checks.json: %v", err)
 	}
